@@ -19,6 +19,7 @@ DEVS = [
     {"dev": {"k": "tamper_e1"}}, {"dev": {"k": "tamper_e2"}}, {"dev": {"k": "tamper_e3"}},
     {"dev": {"k": "tamper_disc_scalar"}, "need_disclosed": 1}, {"dev": {"k": "tamper_reported"}, "need_disclosed": 1},
     {"dev": {"k": "tamper_bp"}, "target": "c0"}, {"dev": {"k": "tamper_C"}, "target": "c0"},
+    {"dev": {"k": "tamper_extend_minus_c"}}, {"dev": {"k": "tamper_extend_zero"}}, {"dev": {"k": "tamper_shorten"}},
     {"dev": {"k": "challenge_arbitrary"}}, {"dev": {"k": "omit_sig"}}, {"dev": {"k": "omit_pred"}, "target": "c0"},
     {"dev": {"k": "inner_id_other", "other": "zz"}}, {"dev": {"k": "resp_len", "delta": 1}}, {"dev": {"k": "resp_len", "delta": -1}},
 ]
